@@ -36,6 +36,8 @@ func languageSweep(r *ev.Run, G *gprops, gs *gstats, vers []int, thorough bool) 
 	r.Phase("length boundaries", func() { lengthBoundaries(r, G, gs, vers, thorough) })
 	r.Phase("case variants", func() { caseVariants(r, G, gs, vers) })
 	r.Phase("decorations", func() { decorations(r, G, gs, vers) })
+	r.Phase("escaped vectors", func() { escapedVectors(r, G, gs, vers) })
+	r.Phase("source literals as tokens", func() { sourceLiteralTokens(r, G, gs, vers) })
 	if G.accept || G.decOn || G.total {
 		r.Phase("decoder re-use", func() { reusePhase(r, vers) })
 	}
@@ -251,6 +253,8 @@ func init() {
 		})
 		r.Phase("decoder re-use", func() { reusePhase(r, []int{3, 2}) })
 		r.Phase("decorations", func() { decorations(r, G, gs, []int{3, 2}) })
+		r.Phase("escaped vectors", func() { escapedVectors(r, G, gs, []int{3, 2}) })
+		r.Phase("source literals as tokens", func() { sourceLiteralTokens(r, G, gs, []int{3, 2}) })
 		r.Phase("case variants", func() { caseVariants(r, G, gs, []int{3, 2}) })
 		r.Phase("value lattices", func() { valueLattices(r, G, gs, []int{3, 2}, thorough) })
 		r.Phase("enum", func() {
@@ -292,6 +296,8 @@ func init() {
 		// inputs and the complete value products owes the same encoding obligations (v2: the encoding
 		// is byte-identical to the input)
 		r.Phase("decorations", func() { decorations(r, G, gs, []int{3, 2}) })
+		r.Phase("escaped vectors", func() { escapedVectors(r, G, gs, []int{3, 2}) })
+		r.Phase("source literals as tokens", func() { sourceLiteralTokens(r, G, gs, []int{3, 2}) })
 		r.Phase("case variants", func() { caseVariants(r, G, gs, []int{3, 2}) })
 		r.Phase("value lattices", func() { valueLattices(r, G, gs, []int{3, 2}, thorough) })
 		r.Phase("vectors of the other version", func() { crossVersion(r, G, gs, []int{3, 2}) })
